@@ -188,4 +188,107 @@ def runFired (st1 : Store) (fired : List ((Event × Stmt) × Option Nat)) : Stor
 
 def clkSet (m : Sim) (lvl : Nat) : Sim := { m with st := m.st.setVal m.clk ⟨1, lvl, true⟩ }
 
+/-! ### which blocks fire -/
+
+theorem mem_zip_map {α β : Type} (l : List α) (g : α → β) (x : α × β) (h : x ∈ l.zip (l.map g)) : x.1 ∈ l ∧ x.2 = g x.1 := by
+  induction l with
+  | nil => simp at h
+  | cons a l ih =>
+    simp only [List.map_cons, List.zip_cons_cons, List.mem_cons] at h
+    rcases h with h | h
+    · subst h; exact ⟨by simp, rfl⟩
+    · have := ih h; exact ⟨by simp [this.1], this.2⟩
+
+theorem zip_map_fst {α β : Type} (l : List α) (g : α → β) : (l.zip (l.map g)).map Prod.fst = l := by
+  induction l with
+  | nil => rfl
+  | cons a l ih => simp [ih]
+
+/-- no `posedge c` block fires when every such `c` was not 0 before -/
+theorem fired_none (f : V.Flat) (st0 st : Store)
+    (hpos : ∀ ep, ep ∈ f.procs → ∃ c, ep.1 = .pos c ∧ bitOf st0 c ≠ some 0) :
+    firedProcs f (snapshotEv f st0) st = [] := by
+  unfold firedProcs snapshotEv
+  rw [List.map_eq_nil_iff, List.filter_eq_nil_iff]
+  intro x hx
+  have hm := mem_zip_map f.procs _ x hx
+  obtain ⟨⟨ev, p⟩, b⟩ := x
+  obtain ⟨c, hc, hb⟩ := hpos (ev, p) hm.1
+  simp only at hc hm
+  subst hc
+  have hb' : b = bitOf st0 c := by rw [hm.2]; rfl
+  subst hb'
+  simp only [Bool.and_eq_true, beq_iff_eq, not_and]
+  intro h0
+  exact absurd h0 hb
+
+/-- every `posedge c` block fires when every such `c` went from 0 to 1 -/
+theorem fired_all (f : V.Flat) (st0 st : Store)
+    (hpos : ∀ ep, ep ∈ f.procs → ∃ c, ep.1 = .pos c ∧ bitOf st0 c = some 0 ∧ bitOf st c = some 1) :
+    firedProcs f (snapshotEv f st0) st = f.procs.map Prod.snd := by
+  unfold firedProcs snapshotEv
+  have hall : (f.procs.zip (f.procs.map fun x => match x with | (ev, _) => (evSig ev).bind (bitOf st0))).filter
+      (fun x => match x with
+        | ((ev, _), b) => match ev with
+          | .pos c => b == some 0 && bitOf st c == some 1
+          | .neg c => b == some 1 && bitOf st c == some 0
+          | .star => false) = f.procs.zip (f.procs.map fun x => match x with | (ev, _) => (evSig ev).bind (bitOf st0)) := by
+    rw [List.filter_eq_self]
+    intro x hx
+    have hm := mem_zip_map f.procs _ x hx
+    obtain ⟨⟨ev, p⟩, b⟩ := x
+    obtain ⟨c, hc, hb0, hb1⟩ := hpos (ev, p) hm.1
+    simp only at hc hm
+    subst hc
+    have hb' : b = bitOf st0 c := by rw [hm.2]; rfl
+    subst hb'
+    simp [hb0, hb1]
+  rw [hall]
+  have : (fun (x : (Event × Stmt) × Option Nat) => match x with | ((_, p), _) => p) = Prod.snd ∘ Prod.fst := by
+    funext x; rfl
+  rw [this, ← List.map_map, zip_map_fst]
+
+/-! ### running the fired blocks -/
+
+theorem fold_fired (g : Store × List (Tgt × BV) → Stmt → Store × List (Tgt × BV))
+    (hg : ∀ acc p, g acc p = ((runProc acc.1 p).1, acc.2 ++ (runProc acc.1 p).2))
+    (procs : List (Event × Stmt)) (hp : ∀ ep, ep ∈ procs → (∃ c, ep.1 = .pos c) ∧ NbaLid ep.2) (st : Store)
+    (q0 : List (Tgt × BV)) :
+    (procs.map Prod.snd).foldl g (st, q0) = (st, (procs.foldl fireStep (st.rd, q0)).2) ∧
+    (procs.foldl fireStep (st.rd, q0)).1 = st.rd := by
+  induction procs generalizing q0 with
+  | nil => exact ⟨rfl, rfl⟩
+  | cons ep procs ih =>
+    obtain ⟨⟨c, hc⟩, hn⟩ := hp ep (by simp)
+    obtain ⟨ev, p⟩ := ep
+    simp only at hc hn
+    subst hc
+    have hstep : fireStep (st.rd, q0) (.pos c, p) =
+        (st.rd, q0 ++ (exec (σ := Rd) id wrA none p { st := st.rd, nba := [] }).nba) := by
+      simp only [fireStep, exec_st (σ := Rd) id wrA p hn]
+    simp only [List.map_cons, List.foldl, hg, runProc_eq st p hn, hstep]
+    exact ih (fun ep hep => hp ep (by simp [hep])) _
+
+/-- all queued writes are whole-variable writes to `nbaTgts` of some block -/
+theorem fireAll_queue (procs : List (Event × Stmt)) (hp : ∀ ep, ep ∈ procs → (∃ c, ep.1 = .pos c) ∧ NbaLid ep.2) (r : Rd)
+    (q0 : List (Tgt × BV)) :
+    ∀ tv, tv ∈ (procs.foldl fireStep (r, q0)).2 → tv ∈ q0 ∨ ∃ ep n, ep ∈ procs ∧ n ∈ nbaTgts ep.2 ∧ tv.1 = .whole n := by
+  induction procs generalizing r q0 with
+  | nil => intro tv h; exact Or.inl h
+  | cons ep procs ih =>
+    obtain ⟨⟨c, hc⟩, hn⟩ := hp ep (by simp)
+    obtain ⟨ev, p⟩ := ep
+    simp only at hc hn
+    subst hc
+    intro tv htv
+    simp only [List.foldl, fireStep] at htv
+    rcases ih (fun ep hep => hp ep (by simp [hep])) _ _ tv htv with h1 | ⟨ep, n, hep, hn', e⟩
+    · simp only [List.mem_append] at h1
+      rcases h1 with h1 | h1
+      · exact Or.inl h1
+      · rcases exec_queue p hn none _ tv h1 with h2 | ⟨n, hn', e⟩
+        · simp at h2
+        · exact Or.inr ⟨(.pos c, p), n, by simp, hn', e⟩
+    · exact Or.inr ⟨ep, n, by simp [hep], hn', e⟩
+
 end FlatM
